@@ -242,6 +242,23 @@ def misc(ck, agg):
                     dl.append(any("given_timeout" in str(sorted(map(str, deps_of(norm(x))))) for x in e.data[1]))
         agg.add("R17.3", f, "the deadline of renew_address() is derived from the timeout the caller gave", bool(dl) and all(dl),
                 "%s.renew_address(timeout): %d of %d deadline tests do not depend on the given timeout - the call ends after the default 7.5 s whatever was asked for" % (clsname, len([x for x in dl if not x]), len(dl)))
+        # R17.9: a node that still holds an address gives it up *unconditionally* before it asks for a new one: the poll replies and the
+        # address response are sent to the unassigned address 0o4444, so on every path the node is re-begun there before its first
+        # request leaves (a release message that may fail to be delivered is no substitute)
+        st, node = nn.fresh(fields={net.FN("_id"): 5, net.FN("_addr"): 0o15})
+        outs_c = nn.run(f, node, [Const(1)], st, limits=Limits(max_paths=60000, loop_unroll=1, depth=14, concrete_loop=6))
+        nreq = 0
+        for o in outs_c:
+            sums = [e for e in o.trace if e.kind == "summary"]
+            first = next((e for e in sums if e.data[0] == "_write" and const_of(norm((e.data[3].get("header") or {}).get("message_type"))) != T.CONSTANTS["MESH_ADDR_RELEASE"]), None)
+            if first is None:
+                continue
+            nreq += 1
+            okb = any(e.data[0] == "_begin" and const_of(norm(e.data[3]["args"][0])) == DEFAULT and e.seq < first.seq for e in sums)
+            agg.add("R17.9", f, "a connected node falls back to the unassigned address before its first request, on every path", okb,
+                    "%s.renew_address() from address 0o15: a path sends its first poll / request (type %r) while the node still listens on its old address - the replies go to 0o4444 and are never heard" % (clsname, (first.data[3].get("header") or {}).get("message_type")), first.node)
+        if clsname == "RF24MeshNoMaster":
+            agg.add("R17.9", f, "renew_address() of a connected node sends requests (anchor)", nreq > 0, "%s: no request transmission found" % clsname)
         # send(): lookup failures end through the clock test with False
         f = P.method(cls, "send")
         n += 1
